@@ -702,6 +702,12 @@ func (s *scope) createInstance(descriptor *Descriptor) (any, error) {
 
 			value := results[ret.Index].Interface()
 
+			// A nil interface value is no service: like a nil result-object
+			// field it is not stored (a typed nil pointer is kept as is).
+			if value == nil {
+				continue
+			}
+
 			// Find the descriptor registered for this return value by the same
 			// registration call; returns whose registration was removed are skipped.
 			returnIndex := ret.Index
@@ -739,7 +745,15 @@ func (s *scope) createInstance(descriptor *Descriptor) (any, error) {
 			return nil, setErr
 		}
 
-		return results[descriptor.MultiReturnIndex].Interface(), nil
+		primary := results[descriptor.MultiReturnIndex].Interface()
+		if primary == nil {
+			return nil, &ValidationError{
+				ServiceType: descriptor.Type,
+				Cause:       fmt.Errorf("constructor returned nil instance"),
+			}
+		}
+
+		return primary, nil
 	}
 
 	instance := results[0].Interface()
